@@ -356,7 +356,7 @@ pub fn run(tier: Tier) -> i32 {
     let seed = ctx.seed;
     let shards = 32;
     let mut tally = ctx.par(shards, |s| enumerate(seed, s, shards));
-    let h = ctx.par(16, |s| histories(seed, s, tier.n(600, 6500)));
+    let h = ctx.par(16, |s| histories(seed, s, tier.n(600, 20_000)));
     tally.merge(h);
     if let Err(e) = &pre {
         tally.inconclusive.push(e.clone());
